@@ -22,7 +22,7 @@ from vf.common import CACHE, TREE_HASH, canon, jdump
 from vf.gen import config as GC
 from vf.gen import loads as GL
 
-SCEN_VERSION = "6"
+SCEN_VERSION = "7"
 
 
 def scen_key(cfg, opts=None):
@@ -282,6 +282,8 @@ def run_scenario(cfg, opts=None):
                 "borefield_rows": len(mgr.results.borehole_location_data_rows) - 1,
                 "search_log_rows": [[str(r[0]), float(r[1]), float(r[2]), float(r[3])] for r in od["design_selection_search_log"]["data"]],
                 "text_nbh_line": next((ln for ln in mgr.results.text_summary.split("\n") if "NBH:" in ln), ""),
+                "text_lines": {k: next((ln.split()[-1] for ln in mgr.results.text_summary.split("\n") if ln.strip().startswith(k)), None)
+                               for k in ("NBH:", "Max HP EFT, C:", "Min HP EFT, C:", "Total Drilling, m:", "Active Borehole Length, m:")},
               }
               rec["tables"] = table_checks(mgr, loads)
             # in-place re-simulation on a deep copy (the monitor must not repair what it observes)
